@@ -648,6 +648,29 @@ def history_docs():
     o.t("e3", p)
     add(ROOT(p, o), "region-history", alphabet=["e1", "e2", "e3"])
 
+    # deep history of a compound state ABOVE a parallel: the recorded value spans the regions
+    for nested in (False, True):
+        a1, a2, b1, b2, c1, c2 = S("a1"), S("a2"), S("b1"), S("b2"), S("c1"), S("c2")
+        r1, r2, r3 = S("r1", a1, a2), S("r2", b1, b2), S("r3", c1, c2)
+        q = P("q", r1, r2, r3)
+        hp = H("hp", deep=True)
+        hs = H("hs")
+        inner = S("w", q) if nested else q
+        pp = S("pp", hp, hs, inner, S("alt"))
+        hp.t(None, a2)
+        hs.t(None, pp.kids[-1])
+        o = S("o")
+        a1.t("e1", a2)
+        b1.t("e2", b2)
+        c1.t("e1", c2, cond_=cond("in", s=0))    # placeholder, fixed below
+        pp.t("e3", o)
+        o.t("e1", hp)
+        o.t("e2", hs)
+        o.t("e3", [b2])
+        tmp = Doc(ROOT(pp, o))
+        c1.trans[0].cond = cond("in", s=tmp.ids["b2"])
+        add(ROOT(pp, o), "deep-above-parallel" + ("-nested" if nested else ""), alphabet=["e1", "e2", "e3"])
+
     # history as initial target and as target of an internal transition of the parent
     k1, k2, k3 = S("k1"), S("k2"), S("k3")
     hk = H("hk")
@@ -718,6 +741,33 @@ def final_docs():
     top = F("top")
     op.t("done.state.op", top, body=[mark("op-done")])
     add(ROOT(op, top), "nested-parallel-finals", alphabet=["e1", "e2", "e3"])
+
+    # a parallel whose region is itself a parallel: outer done event needs the recursive isInFinalState
+    a, fa, b, fb, s1, f1 = S("a"), F("fa"), S("b"), F("fb"), S("s1"), F("f1")
+    a.t("e1", fa)
+    b.t("e2", fb)
+    s1.t("e3", f1)
+    p2 = P("p2", S("r2a", a, fa), S("r2b", b, fb))
+    pp = P("pp", S("r1", s1, f1), p2)
+    top = F("top")
+    w = S("w", pp)
+    w.t("done.state.pp", top, body=[mark("pp-done")])
+    w.t("done.state.p2", None, body=[mark("p2-done")])
+    add(ROOT(w, top), "parallel-region-is-parallel", alphabet=["e1", "e2", "e3"])
+
+    # three levels of parallels
+    x, fx, y, fy, z, fz = S("x"), F("fx"), S("y"), F("fy"), S("z"), F("fz")
+    x.t("e1", fx)
+    y.t("e2", fy)
+    z.t("e3", fz)
+    p3 = P("p3", S("q3a", x, fx), S("q3b", y, fy))
+    p2 = P("p2", p3, S("q2", z, fz))
+    p1 = P("p1", p2, S("q1", S("k"), F("fk")))
+    p1.kids[1].kids[0].t("e1", p1.kids[1].kids[1])
+    top = F("top")
+    w = S("w", p1)
+    w.t("done.state.p1", top, body=[mark("p1-done")])
+    add(ROOT(w, top), "three-level-parallels", alphabet=["e1", "e2", "e3"])
 
     # top-level final reached while events are still queued; onexit of nested active states at shutdown
     d1, d2 = S("d1"), S("d2")
